@@ -315,7 +315,11 @@ impl<K: KeyT> World<K> {
                         if stat.is_some() || x.is_empty() {
                             self.fail("C08", "static-or-empty-memory-error", format!("memory error{via_tag} for a static/empty string"));
                         }
-                        if let (Some(bm), Some(mx)) = (before_mem, before_max) {
+                        // the budget really in use is the bytes of the blocks held (the block audit), not
+                        // what the counter says: a counter that over-reports must not excuse a refusal
+                        let held: usize = before_blocks.iter().map(|b| b.1).sum();
+                        if let (Some(_), Some(mx)) = (before_mem, before_max) {
+                            let bm = held;
                             if (bm as u128) + (x.len() as u128) <= mx as u128 {
                                 self.fail("C08", "spurious-memory-error", format!("MemoryLimitReached{via_tag} although usage {bm} + len {} <= limit {mx}", x.len()));
                                 if !full {
